@@ -1,7 +1,7 @@
 (* The three skeleton theorems instantiated on the skeleton regenerated from nobodd/fs.py and
    nobodd/path.py on every run (Gen/FatSkel.v); the checks themselves run by vm_compute. *)
 From Coq Require Import List Arith Bool.
-From NV Require Import Fat.SkelDefs Fat.SkelProofs Gen.FatSkel.
+From NV Require Import Fat.SkelDefs Fat.SkelProofs Fat.SpanProofs Gen.FatSkel.
 Import ListNotations.
 
 Definition all_on (g : nat) : bool := true.
@@ -18,7 +18,12 @@ Definition check06 : bool :=
   ok_prog_from (nthb may_poke_serving) sel_none serve_env no_exempt 0 skeleton &&
   forallb (fun f => negb (nthb may_poke_serving f)) entries_serve.
 
+Definition check14_atomic : bool :=
+  quiet_prog_from (nthb quiet_fns) all_on 0 skeleton &&
+  forallb (fun f => one_span_items (nthb quiet_fns) all_on false (nth f skeleton [])) atomic_entries.
+
 Lemma check14_holds : check14 = true. Proof. vm_compute. reflexivity. Qed.
+Lemma check14_atomic_holds : check14_atomic = true. Proof. vm_compute. reflexivity. Qed.
 Lemma check15_holds : check15 = true. Proof. vm_compute. reflexivity. Qed.
 Lemma check06_holds : check06 = true. Proof. vm_compute. reflexivity. Qed.
 
@@ -65,4 +70,19 @@ Proof.
   eapply (entry_safe skeleton serve_env sel_none no_exempt (nthb may_poke_serving)); [|exact Hn| |exact H].
   - intros g b Hg. exact (ok_prog_from_nth _ _ _ _ _ 0 C1 g b Hg).
   - eapply entry_not_needed; eassumption.
+Qed.
+
+(* C14, atomicity: the composite operations (unlink, rename, mkdir, rmdir, touch, write_bytes/text,
+   read_bytes/text, iterdir/glob/rglob, FatFile.write / truncate / readall) are ONE exclusive (or
+   shared) section: in every execution that takes the top level of the function in program order,
+   every lock event and every store lies inside a single outermost with-block, with nothing but
+   lock-free, store-free code before and after it *)
+Theorem skel_atomic_single_section f body t :
+  In f atomic_entries -> nth_error skeleton f = Some body -> exec_seq skeleton all_on f body t ->
+  span_ok 0 0 t = true.
+Proof.
+  intros Hin Hn H. pose proof check14_atomic_holds as C. unfold check14_atomic in C. apply andb_true_iff in C as [C1 C2].
+  rewrite forallb_forall in C2. specialize (C2 f Hin). rewrite (nth_error_nth _ _ _ Hn) in C2.
+  apply (one_span_sound skeleton all_on (nthb quiet_fns)
+           (fun g b Hg => quiet_prog_from_nth _ _ _ 0 C1 g b Hg) f body t H false C2).
 Qed.
